@@ -557,7 +557,10 @@ impl<'a> Tr<'a> {
                 };
                 // payload of break = (value, outs…): we model the block value only; outs assigned before a
                 // `break 'l` inside the block would be lost, so refuse blocks that both assign outs and break.
-                self.frames.push(Frame { label: Some(l), state: Vec::new(), is_loop: false, val_ty: vt.clone(), valued: false });
+                let parent_eps = self.cur_eps();
+                let vph = self.ph("lty", &[&vt]);
+                let eps = format!("(LoopExit {} Unit {})", parent_eps, vph);
+                self.frames.push(Frame { label: Some(l), state: Vec::new(), is_loop: false, val_ty: vt.clone(), valued: false, eps });
                 let r = self.block_lines(&b.stmts, outs, want_value, Some(&vt));
                 let fr = self.frames.pop().unwrap();
                 let (bl, ty, div) = r?;
@@ -584,8 +587,27 @@ impl<'a> Tr<'a> {
             }
         }
         let val_ty = self.sub.fresh();
-        self.frames.push(Frame { label, state: state.to_vec(), is_loop: true, val_ty: val_ty.clone(), valued: false });
         let st = state_tuple(state);
+        let sig_parts: Vec<String> = state.iter().map(|v| {
+            let t = self.lookup(v).unwrap();
+            self.ph("lty", &[&t])
+        }).collect();
+        let sigma = match sig_parts.len() {
+            0 => "Unit".to_string(),
+            1 => sig_parts[0].clone(),
+            _ => format!("({})", sig_parts.join(" × ")),
+        };
+        let beta_id = self.betas.len();
+        self.betas.push(String::new());
+        let beta_ph = format!("{}beta:{}{}", PH_L, beta_id, PH_R);
+        let parent_eps = self.cur_eps();
+        let eps = format!("(LoopExit {} {} {})", parent_eps, sigma, beta_ph);
+        self.loop_count += 1;
+        let loop_name = format!("{}.loop{}", self.lean_name, self.loop_count);
+        // captured variables: in-scope variables mentioned in the loop that are not loop state
+        let captured = self.captured_vars(&kind, state);
+        self.frames.push(Frame { label, state: state.to_vec(), is_loop: true, val_ty: val_ty.clone(), valued: false, eps: eps.clone() });
+        let fuel_before = self.fuel_uses;
         let body_res: R<Vec<String>> = (|| {
             match kind {
                 LoopKind::Loop(b) => {
@@ -619,26 +641,46 @@ impl<'a> Tr<'a> {
                 }
             }
         })();
+        let body_uses_fuel = self.fuel_uses > fuel_before;
         let fr = self.frames.pop().unwrap();
         let body = body_res?;
-        let sig_parts: Vec<String> = state.iter().map(|v| {
-            let t = self.lookup(v).unwrap();
-            self.ph("lty", &[&t])
-        }).collect();
-        let sigma = match sig_parts.len() {
-            0 => "Unit".to_string(),
-            1 => sig_parts[0].clone(),
-            _ => format!("({})", sig_parts.join(" × ")),
-        };
         let beta = if fr.valued { format!("({} × {})", sigma, self.ph("lty", &[&val_ty])) } else { sigma.clone() };
+        self.betas[beta_id] = beta.clone();
         let binder = match state.len() {
             0 => "(_ : Unit)".to_string(),
             _ => st.clone(),
         };
-        let mut lines = vec![format!("(Rs.loop (σ := {}) (β := {}) fuel (fun {} => do", sigma, beta, binder)];
-        lines.extend(ind(body, 4));
-        let last = lines.pop().unwrap();
-        lines.push(format!("{}) {})", last, st));
+        // the loop body as its own definition
+        let mut params = String::new();
+        let mut args = String::new();
+        for g in &self.generics.clone() {
+            write!(params, " ({} : Type)", g).unwrap();
+            write!(args, " {}", g).unwrap();
+        }
+        for g in &self.const_generics.clone() {
+            write!(params, " ({} : Nat)", lean_ident(g)).unwrap();
+            write!(args, " {}", lean_ident(g)).unwrap();
+        }
+        if body_uses_fuel {
+            params.push_str(" (fuel : Nat)");
+            args.push_str(" fuel");
+        }
+        for c in &captured {
+            let t = self.lookup(c).unwrap();
+            let tp = self.ph("lty", &[&t]);
+            write!(params, " ({} : {})", lean_ident(c), tp).unwrap();
+            write!(args, " {}", lean_ident(c)).unwrap();
+        }
+        let mut def = String::new();
+        writeln!(def, "/-- body of loop {} of `{}` (state: {}) -/", self.loop_count_of(&loop_name), self.lean_name, if state.is_empty() { "none".to_string() } else { state.join(", ") }).unwrap();
+        writeln!(def, "def {}{} : {} → Ctl {} {} := fun {} => do", loop_name, params, sigma, eps, sigma, binder).unwrap();
+        for l in ind(body, 2) {
+            def.push_str(&l);
+            def.push('\n');
+        }
+        self.hoisted.push(def);
+        self.fuel_uses += 1;
+        let lines = vec![format!("(Rs.loop fuel ({}{}) {})", loop_name, args, st)];
         // result of the loop term: β.  Re-shape into (value?, outs…)
         let ty = if fr.valued { val_ty } else { Ty::Unit };
         let need_reshape = fr.valued || want_value || outs != state;
@@ -656,6 +698,46 @@ impl<'a> Tr<'a> {
         let last = out_lines.pop().unwrap();
         out_lines.push(format!("{})", last));
         Ok(Comp { pre: vec![], lines: out_lines, ty, div: false })
+    }
+}
+
+impl<'a> Tr<'a> {
+    fn cur_eps(&mut self) -> String {
+        match self.frames.last() {
+            Some(f) => f.eps.clone(),
+            None => {
+                let r = self.ret_ty.clone();
+                self.ph("lty", &[&r])
+            }
+        }
+    }
+
+    fn loop_count_of(&self, name: &str) -> String {
+        name.rsplit("loop").next().unwrap_or("").to_string()
+    }
+
+    fn captured_vars(&self, kind: &LoopKind, state: &[String]) -> Vec<String> {
+        struct V(Vec<String>);
+        impl<'ast> syn::visit::Visit<'ast> for V {
+            fn visit_expr_path(&mut self, p: &'ast syn::ExprPath) {
+                if p.path.segments.len() == 1 {
+                    let n = p.path.segments[0].ident.to_string();
+                    if !self.0.contains(&n) {
+                        self.0.push(n);
+                    }
+                }
+            }
+            fn visit_item(&mut self, _: &'ast syn::Item) {}
+        }
+        let mut v = V(Vec::new());
+        match kind {
+            LoopKind::Loop(b) => syn::visit::Visit::visit_block(&mut v, b),
+            LoopKind::While(c, b) => {
+                syn::visit::Visit::visit_expr(&mut v, c);
+                syn::visit::Visit::visit_block(&mut v, b);
+            }
+        }
+        v.0.into_iter().filter(|n| self.lookup(n).is_some() && !state.contains(n)).collect()
     }
 }
 
